@@ -437,7 +437,26 @@ func (m *Mast) Insert(ctx context.Context, key, value interface{}) error {
 			return m.savePathForRoot(ctx, options.path)
 		}
 	}
-	// XXX do after split, XXX mark tree invalid if split fails
+	// Split the child below the new key first: that is the only step that can fail, and doing
+	// it before the node is touched keeps a failed Insert from leaving the key half-inserted.
+	var leftLink interface{}
+	var rightLink interface{}
+	if i < len(node.Link) && node.Link[i] != nil {
+		var child *mastNode
+		child, err = m.load(ctx, node.Link[i])
+		if err != nil {
+			return err
+		}
+		if m.debug {
+			fmt.Printf("  doing a split, of node with keys %v\n", child.Key)
+		}
+		leftLink, rightLink, err = split(ctx, child, key, m)
+		if err != nil {
+			return fmt.Errorf("split: %w", err)
+		}
+	} else if m.debug {
+		fmt.Printf("  child did not need a split\n")
+	}
 	node = node.ToMut(ctx, m)
 	node.Dirty()
 	if i < len(node.Key) {
@@ -454,29 +473,6 @@ func (m *Mast) Insert(ctx context.Context, key, value interface{}) error {
 	} else {
 		node.Link = append(node.Link, nil)
 	}
-	var leftLink interface{}
-	var rightLink interface{}
-	if node.Link[i] != nil {
-		var child *mastNode
-		child, err = m.load(ctx, node.Link[i])
-		if err != nil {
-			return err
-		}
-		if m.debug {
-			fmt.Printf("  doing a split, of node with keys %v\n", child.Key)
-		}
-		leftLink, rightLink, err = split(ctx, child, key, m)
-		if err != nil {
-			return fmt.Errorf("split: %w", err)
-		}
-	} else {
-		if m.debug {
-			fmt.Printf("  child did not need a split\n")
-		}
-		leftLink = nil
-		rightLink = node.Link[i]
-	}
-
 	node.Link[i] = leftLink
 	node.Link[i+1] = rightLink
 	options.path[len(options.path)-1].node = node
